@@ -28,8 +28,6 @@ import (
 )
 
 const sigStale = "store-stale-tag-keys-values-after-series-delete"
-const sigGhost = "tsi-tagvalue-cache-stale-after-series-delete"
-const sigNilPanic = "show-measurements-and-or-panics-without-shards"
 const db = "db0"
 
 var measNames = []string{"m", "n"}
@@ -258,7 +256,7 @@ type mshard struct {
 	all   []jseries
 	dead  []jseries
 	byOp  []jseries // killed by a single-series delete (its WHERE clause cached the tag-value series sets)
-	ghost []jseries // of those, the ones still alive in another shard (so still in the series file)
+	ghost []jseries // of those, the ones still alive in another shard (so still in the series file); shape of a repaired finding
 }
 
 func modelShards(d jdataset) []mshard {
@@ -632,7 +630,7 @@ func run(w *vh.W, e *env, c *jcase) {
 	}
 	shTerms := make([]string, len(sel))
 	for i, sh := range sel {
-		shTerms[i] = fmt.Sprintf("{| sh_all := %s; sh_dead := %s; sh_ghost := %s |}", seriesList(sh.all), seriesList(sh.dead), seriesList(sh.ghost))
+		shTerms[i] = fmt.Sprintf("{| sh_all := %s; sh_dead := %s |}", seriesList(sh.all), seriesList(sh.dead))
 	}
 	authTerm := "None"
 	if c.Auth.Mode == "fine" {
@@ -681,14 +679,12 @@ func run(w *vh.W, e *env, c *jcase) {
 	if staleShape && listing && c.Auth.Mode != "fine" {
 		sig = sigStale
 	}
-	// shape of the second finding: a selected shard dropped a series through a single-series
-	// delete while the series lives on in another shard
+	// shape of a repaired finding (stale tag-value series cache): a selected shard dropped a
+	// series through a single-series delete while the series lives on in another shard.  Kept
+	// in the generator and counted, no longer tolerated.
 	nGhost := 0
 	for _, sh := range sel {
 		nGhost += len(sh.ghost)
-	}
-	if nGhost > 0 && sig == "" {
-		sig = sigGhost
 	}
 	nonEmpty := len(c.Names) > 0 || len(c.Rows) > 0
 	nDead := 0
@@ -698,17 +694,8 @@ func run(w *vh.W, e *env, c *jcase) {
 	nontrivial := nonEmpty && len(sel) >= 2
 	idx := w.Add(t, c, nontrivial, sig)
 	if p != "" {
-		// shape of the third finding: no shard left in the database and an AND/OR condition
+		// (a database without shards + AND/OR condition used to panic: repaired, a panic is a failure)
 		psig := ""
-		hasBin := false
-		q.Cond.walk(func(y *jexpr) {
-			if y.Op == "and" || y.Op == "or" {
-				hasBin = true
-			}
-		})
-		if q.Kind == "names" && len(ms) == 0 && hasBin {
-			psig = sigNilPanic
-		}
 		w.Fail(idx, "panic in Store."+q.Kind+" query: "+p, psig)
 	}
 	w.Count("kind", q.Kind)
@@ -718,7 +705,7 @@ func run(w *vh.W, e *env, c *jcase) {
 	w.Count("error", fmt.Sprint(c.Err))
 	w.Count("nonempty_answer", fmt.Sprint(nonEmpty))
 	w.Count("known_finding_shape", sig)
-	w.Count("cache_ghosts_in_selection", fmt.Sprint(nGhost))
+	w.Count("dropped_here_alive_elsewhere_in_selection", fmt.Sprint(nGhost))
 	nLate := 0
 	for _, l := range c.Data.Late {
 		nLate += len(l)
@@ -784,9 +771,6 @@ func genDataset(w *vh.W) jdataset {
 			d.Ops = append(d.Ops, jop{Kind: "series", Shard: sh, Series: src[r.IntN(len(src))]})
 		}
 	}
-	// whole-measurement deletes first (a measurement delete after a series delete can leave
-	// partially cached ghosts, which the model does not describe)
-	sort.SliceStable(d.Ops, func(i, j int) bool { return d.Ops[i].Kind == "meas" && d.Ops[j].Kind != "meas" })
 	if r.IntN(3) != 0 {
 		// late write batches: series new to the shard, of measurements that still live there
 		// (a measurement re-created after its drop is C14's subject)
@@ -969,7 +953,7 @@ func mk(name string, kv ...string) jseries {
 
 func main() {
 	w := vh.New("C42", "From Coq Require Import String.\nFrom Verif Require Import Base.Prelude Model.C15 Model.C42.\nOpen Scope string_scope.", "case", "check")
-	w.Rule = "one case = (dataset, authorizer, query). Dataset: 2-3 shards of one database in a real tsdb.Store, each holding a random subset (10-50%) of 2 measurements x {k1,k2} x {absent,a,b}, then 0-4 deletes (whole-measurement deletes first, then single series; in one shard through Shard.DeleteSeriesRange/DeleteMeasurement or in all through Store.DeleteSeries/DeleteMeasurement). Authorizer: nil, query.OpenAuthorizer, or a fine authorizer allowing a random 0/30/50/80/100% of the series. Query: MeasurementNames (cond nil or a depth<=3 expression over tag and _name comparisons), TagKeys / TagValues over a random non-empty subset of the shards (sometimes plus an unknown shard id) with a condition assembled like statement_rewriter.go from an optional _name part, an optional/required _tagKey part (=, !=, =~, !~, IN) and an optional tag filter. In 2/3 of the datasets the store then answers listing queries for every measurement/key (filling the tag-value series-id caches) and every shard receives ONE more write batch of 4-7 series new to it before the judged queries (live index, no reopen). ~60 queries per store. Hand-picked first: the stale-listing shapes and the AND/!= measurement-level semantics. Non-trivial: >= 2 shards selected and a non-empty answer. Distinct: distinct Gallina terms."
+	w.Rule = "one case = (dataset, authorizer, query). Dataset: 2-3 shards of one database in a real tsdb.Store, each holding a random subset (10-50%) of 2 measurements x {k1,k2} x {absent,a,b}, then 0-4 deletes (one series or a whole measurement, in any order; in one shard through Shard.DeleteSeriesRange/DeleteMeasurement or in all through Store.DeleteSeries/DeleteMeasurement). Authorizer: nil, query.OpenAuthorizer, or a fine authorizer allowing a random 0/30/50/80/100% of the series. Query: MeasurementNames (cond nil or a depth<=3 expression over tag and _name comparisons), TagKeys / TagValues over a random non-empty subset of the shards (sometimes plus an unknown shard id) with a condition assembled like statement_rewriter.go from an optional _name part, an optional/required _tagKey part (=, !=, =~, !~, IN) and an optional tag filter. In 2/3 of the datasets the store then answers listing queries for every measurement/key (filling the tag-value series-id caches) and every shard receives ONE more write batch of 4-7 series new to it before the judged queries (live index, no reopen). ~60 queries per store. Hand-picked first: the stale-listing shapes and the AND/!= measurement-level semantics. Non-trivial: >= 2 shards selected and a non-empty answer. Distinct: distinct Gallina terms."
 	for _, p := range patterns {
 		compiled = append(compiled, regexp.MustCompile(p))
 	}
